@@ -133,7 +133,16 @@ def run(tier):
         for k in range(nproc):
             rows.append({"id": name, "profile": p, "data": d, "reps": 1, "goroutines": 0, "tag": "proc%d" % k})
     # copies of one input are adjacent, so round-robin sharding puts them in different processes
-    obs = vlib.run_harness("determinism", rows, "c06", shards=vlib.NCPU, timeout=3000)
+    try:
+        obs = vlib.run_harness("determinism", rows, "c06", shards=vlib.NCPU, timeout=3000)
+    except vlib.Infra as e:
+        if "fatal error: concurrent map" not in str(e) or "amf-custom-validator/" not in str(e):
+            raise
+        # the Go runtime killed the process: the library read and wrote one of its maps from two validations at once
+        V.disagree("the validator crashes when validations run concurrently (concurrent map access)", {"harness_stderr": str(e)[-3000:]})
+        vlib.write_evidence("C06", tier, {"states": states, "transitions": trans, "traces_validated_against_impl": 0, "evaluations": len(rows),
+                                          "distinct_nontrivial": 0, "samples": [str(e)[-500:]]}, time.time() - t0, violations=1)
+        return V.finish()
     lines = []
     bad_inputs = set()
     for o in obs:
